@@ -9,7 +9,10 @@ Per case: adjacency against the criterion decided in rational arithmetic
 (refmodel/visibility.py); visibility()/visibility_single(); retarded +
 advanced degree = degree; retarded/advanced degree, local clustering,
 closeness, betweenness and trans_betweenness against their definitions
-evaluated on the library's own adjacency; invariance of the adjacency under
+evaluated on the library's own adjacency (family scale: the same on a fixed
+list of structured integer series with 130/260/300 samples, uniform, gapped
+and "hours since 1800" timings, missing samples around positions 128/256,
+exact integer oracle); invariance of the adjacency under
 x -> a x + b and t -> c t + d (dyadic a, c > 0); time reversal mirrors the
 adjacency and exchanges the retarded and advanced measures.
 """
@@ -285,7 +288,264 @@ def fam_vg(case):
             "trivial": n <= 2, "sig": sig}
 
 
-FAMILIES = {"vg": fam_vg}
+
+# --------------------------------------------------------------------------
+# family scale: 130 / 260 / 300 samples (beyond 128 / 256, flat index i*N+j
+# >= 32768), integer values 0..15 and integer timings (incl. "hours since
+# 1800", 6-hourly: t ~ 1.9e6, step 6), exact integer oracle
+
+SCALE_MV = [1, 60, 127, 128, 129, 255, 256]
+
+
+def _pattern(name, n):
+    i = np.arange(n)
+    if name == "plateau":
+        x = (i // 7) % 4
+    elif name == "ramps":             # straight ramps: collinear triples
+        x = i % 9
+    elif name == "tri":
+        x = np.abs((i % 16) - 8)
+    elif name == "qres":
+        x = (i * i) % 13
+    elif name == "stairs":            # one long monotone staircase
+        x = i // 20
+    elif name == "const":
+        x = np.full(n, 3)
+    elif name == "valley":            # first and last sample see each other
+        x = i % 2
+        x[0] = x[-1] = 15
+    else:
+        raise ValueError(name)
+    return x.astype(int)
+
+
+def _timing(name, n):
+    i = np.arange(n)
+    if name == "uni":
+        return i
+    if name == "hours":               # 6-hourly, hours since 1800
+        return 1900000 + 6 * i
+    if name == "gaps":
+        return np.cumsum(1 + (i % 4)) - 1
+    raise ValueError(name)
+
+
+def _sizeclass(n):
+    return "N>256" if n > 256 else ("N>128" if n > 128 else "N<=128")
+
+
+def _cmp_np(got, exp):
+    ok, skipped = True, 0
+    for g, e in zip(got, exp):
+        if e is None:
+            skipped += 1
+        elif not np.isclose(g, e, **F64):
+            ok = False
+    return ok and len(got) == len(exp), skipped
+
+
+def _scale_measures(g, A, bw, viol, excl, sc):
+    """Measures against the definitions on the library's own adjacency."""
+    ev = 0
+    out, failed = {}, set()
+    D, S = vis.np_apsp(A)
+    names = [("degree", lambda side: vis.np_directed_degree(A, side)),
+             ("local_clustering",
+              lambda side: vis.np_directed_clustering(A, side)),
+             ("closeness", lambda side: vis.np_directed_closeness(D, side))]
+    if bw:
+        names.append(("betweenness",
+                      lambda side: vis.np_directed_betweenness(D, S, side)))
+    deg = _vec(g.degree)
+    for side in ("retarded", "advanced"):
+        for name, orc in names:
+            full = "%s_%s" % (side, name)
+            ev += 1
+            try:
+                got = _vec(getattr(g, full))
+            except Exception as e:   # noqa
+                failed.add(full)
+                viol.append(V("VisibilityGraph.%s:raises:%s" % (full, sc),
+                              _exc(e), _exc(e), "a value per node"))
+                continue
+            out[full] = got
+            if name == "local_clustering" and side + "_degree" in failed:
+                failed.add(full)
+                continue
+            exp = orc(side)
+            ok, skipped = _cmp_np(got, exp)
+            if skipped:
+                r = "%s undefined (%s on that side)" % (name, {
+                    "local_clustering": "fewer than two neighbours",
+                    "closeness": "no or unreachable nodes"}.get(name, "?"))
+                excl[r] = excl.get(r, 0) + skipped
+            if not ok:
+                failed.add(full)
+                bad = [k for k, (a, b) in enumerate(zip(got, exp))
+                       if b is not None and not np.isclose(a, b, **F64)]
+                viol.append(V("VisibilityGraph.%s:value:%s" % (full, sc),
+                              "differs from the definition on the library's "
+                              "adjacency at nodes %r..." % bad[:5],
+                              [float(got[k]) for k in bad[:5]],
+                              [exp[k] for k in bad[:5]]))
+    rd, ad = out.get("retarded_degree"), out.get("advanced_degree")
+    if rd is not None and ad is not None and \
+            not ({"retarded_degree", "advanced_degree"} & failed):
+        ev += 1
+        if not np.array_equal(rd + ad, deg):
+            viol.append(V("VisibilityGraph.degree:identity:" + sc,
+                          "retarded_degree + advanced_degree != degree",
+                          int(np.abs(rd + ad - deg).sum()), 0))
+    if bw:
+        ev += 1
+        try:
+            got = _vec(g.trans_betweenness)
+            out["trans_betweenness"] = got
+            exp = vis.np_trans_betweenness(D, S)
+            if not np.allclose(got, exp, **F64):
+                failed.add("trans_betweenness")
+                viol.append(V("VisibilityGraph.trans_betweenness:value:" + sc,
+                              "", got[:6], exp[:6]))
+        except Exception as e:   # noqa
+            viol.append(V("VisibilityGraph.trans_betweenness:raises:" + sc,
+                          _exc(e), _exc(e), "a value per node"))
+    return ev, out, failed
+
+
+def fam_scale(case):
+    pat, n, tname = case["pat"], case["n"], case["t"]
+    hor, mv, bw = bool(case["h"]), bool(case["mv"]), bool(case.get("bw"))
+    sc = _sizeclass(n)
+    xi, ti = _pattern(pat, n), _timing(tname, n)
+    missing = np.zeros(n, dtype=bool)
+    if mv:
+        missing[[q for q in SCALE_MV + [n - 1] if q < n]] = True
+    x = [None if missing[k] else float(xi[k]) for k in range(n)]
+    t = None if tname == "uni" else [float(v) for v in ti]
+    kind = "horizontal" if hor else "natural"
+    tag = "%s%s:%s" % (kind, "+mv" if mv else "", sc)
+    viol, excl, stats = [], {}, {}
+    ev = 2
+    # self-test of the fast oracle against the by-definition oracle on two
+    # windows (one across position 128)
+    for a in (0, min(121, n - 14)):
+        w = slice(a, a + 14)
+        ref = vis.horizontal(x[w]) if hor else vis.natural(
+            x[w], [float(v) for v in ti[w]])
+        fast = vis.fast_horizontal(xi[w], missing[w]) if hor else \
+            vis.fast_natural(xi[w], ti[w], missing[w])
+        assert np.array_equal(fast, np.array(ref)), "fast oracle disagrees"
+    E = vis.fast_horizontal(xi, missing) if hor else \
+        vis.fast_natural(xi, ti, missing)
+    try:
+        g = _mk(x, t, hor, mv)
+    except Exception as e:   # noqa
+        viol.append(V("VisibilityGraph.__init__:raises:" + tag, _exc(e),
+                      _exc(e), "a graph"))
+        return {"viol": viol, "evals": ev, "sig": "exc"}
+    A = _adj(g)
+    ok = A.shape == (n, n) and np.array_equal(A, E)
+    if not ok:
+        if A.shape != (n, n):
+            viol.append(V("VisibilityGraph.adjacency:shape:" + tag, "",
+                          A.shape, (n, n)))
+        else:
+            idx = np.argwhere(A != E)
+            clean = [(i, j) for i, j in idx
+                     if not missing[min(i, j):max(i, j) + 1].any()]
+            msg = "%d entries differ, first %r (got %d)" % (
+                len(idx), idx[0].tolist(), A[tuple(idx[0])])
+            if mv and not clean and np.array_equal(A, A.T):
+                viol.append(V(
+                    "VisibilityGraph.adjacency:missing-ignored:" + kind,
+                    "links at or across a missing sample; " + msg,
+                    idx[:6].tolist(), "no such links"))
+            else:
+                viol.append(V("VisibilityGraph.adjacency:value:" + tag,
+                              "adjacency differs from the visibility "
+                              "criterion; " + msg, idx[:6].tolist(),
+                              [int(E[tuple(k)]) for k in idx[:6]]))
+    e_, base, failed = _scale_measures(g, A, bw, viol, excl, sc)
+    ev += e_
+    sig = (tag, pat, tname, int(A.sum()), tuple(
+        float(np.nansum(base[k])) for k in sorted(base)))
+    if not ok:
+        stats["relations skipped (adjacency already wrong)"] = 1
+        return {"viol": viol, "evals": ev, "excluded": excl, "stats": stats,
+                "sig": sig}
+    # -- affine invariance (dyadic maps keep float32 exact)
+    tt = [float(v) for v in ti]
+    variants = [("value-affine", [None if v is None else 2.0 * v - 3.0
+                                  for v in x], t),
+                ("value-affine", [None if v is None else 0.5 * v + 1.5
+                                  for v in x], t),
+                ("time-affine", x, [2.0 * u for u in tt]),
+                ("time-affine", x, [0.5 * u - 1.0 for u in tt])]
+    for name, x2, t2 in variants:
+        ev += 1
+        A2 = _adj(_mk(x2, t2, hor, mv))
+        if not np.array_equal(A2, A):
+            viol.append(V("VisibilityGraph.adjacency:not-invariant:%s:%s" % (
+                name, tag), "%d entries differ" % int((A2 != A).sum()),
+                np.argwhere(A2 != A)[:6].tolist(), "identical adjacency"))
+    # -- time reversal
+    ev += 1
+    gr = _mk(list(reversed(x)), None if t is None else
+             [tt[-1] - u for u in reversed(tt)], hor, mv)
+    Ar = _adj(gr)
+    if not np.array_equal(Ar, A[::-1, ::-1]):
+        viol.append(V("VisibilityGraph.adjacency:not-mirrored:time-reversal:"
+                      + tag, "%d entries differ" % int(
+                          (Ar != A[::-1, ::-1]).sum()),
+                      np.argwhere(Ar != A[::-1, ::-1])[:6].tolist(),
+                      "mirrored adjacency"))
+    else:
+        for m in ("degree", "local_clustering", "closeness"):
+            for s1, s2 in (("retarded", "advanced"), ("advanced", "retarded")):
+                n1, n2 = "%s_%s" % (s1, m), "%s_%s" % (s2, m)
+                if n1 in failed or n2 in failed or n2 not in base:
+                    continue
+                ev += 1
+                a_ = _vec(getattr(gr, n1))
+                if not np.allclose(a_, base[n2][::-1], equal_nan=True, **F64):
+                    viol.append(V(
+                        "VisibilityGraph.%s:not-exchanged:time-reversal:%s" % (
+                            n1, sc), "%s of the reversed series != reversed "
+                        "%s" % (n1, n2), a_[:6], base[n2][::-1][:6]))
+    return {"viol": viol, "evals": ev, "excluded": excl, "stats": stats,
+            "sig": sig}
+
+
+def _scale_cases(tier):
+    thorough = tier == "thorough"
+    out = []
+    pats = ["plateau", "ramps", "tri", "qres", "stairs", "const", "valley"]
+    for n in (130, 260, 300):
+        for k, p in enumerate(pats):
+            for tname in ("uni", "hours", "gaps"):
+                if not thorough and tname != ("uni", "hours", "gaps")[k % 3] \
+                        and not (tname == "uni" and p in ("qres", "valley")):
+                    continue
+                bw = tname == "uni" and p in ("qres", "valley") and (
+                    n == 130 or thorough)
+                out.append({"pat": p, "n": n, "t": tname, "h": False,
+                            "mv": False, "bw": bw})
+            out.append({"pat": p, "n": n, "t": "uni", "h": True, "mv": False,
+                        "bw": p == "tri" and n == 130})
+            if p in ("plateau", "ramps", "qres", "valley") or thorough:
+                out.append({"pat": p, "n": n, "t": ("hours", "gaps")[k % 2],
+                            "h": False, "mv": True, "bw": False})
+                out.append({"pat": p, "n": n, "t": "uni", "h": True,
+                            "mv": True, "bw": False})
+    if thorough:
+        for p in pats:
+            out.append({"pat": p, "n": 183, "t": "hours", "h": False,
+                        "mv": False, "bw": True})
+    out.sort(key=lambda c: c["n"])
+    return out
+
+
+FAMILIES = {"vg": fam_vg, "scale": fam_scale}
 
 
 def _cases(tier):
@@ -332,6 +592,13 @@ def run(ctx):
             else "", TIMINGS[1], TIMINGS[2], mmax))
     ctx.explore("vg", cases, desc="visibility criterion, measures, "
                 "affine invariance, time reversal")
+    sc = _scale_cases(ctx.tier)
+    ctx.explore("scale", sc, chunk=1, desc="130/260/300 samples: plateaus, "
+                "ramps, collinear triples, missing samples around 128/256, "
+                "timings ~1.9e6 with step 6")
+    ctx.notes.update({"scale_cases": len(sc),
+                      "scale_sizes": [130, 260, 300] + (
+                          [183] if ctx.tier == "thorough" else [])})
     ctx.notes.update({"length_max": lmax, "missing_length_max": mmax,
                       "length7_alphabet3": ctx.tier == "thorough",
                       "value_maps": VALUE_MAPS, "time_maps": TIME_MAPS})
